@@ -29,22 +29,24 @@ const modPath = "github.com/Trendyol/go-dcp"
 
 // files to instrument: package path -> file base names ("*" = all non-test files)
 var targets = map[string][]string{
-	modPath:                       {"dcp.go"},
-	modPath + "/stream":           {"*"},
-	modPath + "/couchbase":        {"*"},
-	modPath + "/membership":       {"*"},
-	modPath + "/metadata":         {"*"},
-	modPath + "/kubernetes":       {"ha_membership.go"},
-	modPath + "/servicediscovery": {"service_discovery.go"},
+	modPath:                          {"dcp.go"},
+	modPath + "/stream":              {"*"},
+	modPath + "/couchbase":           {"*"},
+	modPath + "/membership":          {"*"},
+	modPath + "/metadata":            {"*"},
+	modPath + "/kubernetes":          {"ha_membership.go"},
+	modPath + "/servicediscovery":    {"service_discovery.go", "rpc_client.go", "rpc_server.go"},
+	modPath + "/helpers":             {"utils.go"},
 	"github.com/asaskevich/EventBus": {"event_bus.go"},
 }
 
 var importSwap = map[string][2]string{
-	"sync":                         {"verif/vrt/vsync", "sync"},
-	"sync/atomic":                  {"verif/vrt/vatomic", "atomic"},
-	"time":                         {"verif/vrt/vtime", "time"},
-	"context":                      {"verif/vrt/vcontext", "context"},
-	"golang.org/x/sync/errgroup":   {"verif/vrt/verrgroup", "errgroup"},
+	"sync":                       {"verif/vrt/vsync", "sync"},
+	"sync/atomic":                {"verif/vrt/vatomic", "atomic"},
+	"time":                       {"verif/vrt/vtime", "time"},
+	"context":                    {"verif/vrt/vcontext", "context"},
+	"golang.org/x/sync/errgroup": {"verif/vrt/verrgroup", "errgroup"},
+	"net/rpc":                    {"verif/vrt/vrpc", "rpc"},
 }
 
 // struct types whose fields never get yield points (pure metrics)
